@@ -366,7 +366,7 @@ func runC10(p *core.Prog, r *core.Result) {
 				}
 				// the appended element reads config.Requirements[name] with name = sortedKeys[idx], idx covering all keys
 				var elemLookup *ssa.Lookup
-				for x := range core.BackwardSlice(c.Call.Args[1], core.SliceOpts{Stores: true}) {
+				for x := range core.BackwardSlice(c.Call.Args[1], core.SliceOpts{Stores: true, ThroughCall: func(cc *ssa.Call) bool { return core.Callee(cc) != nil && core.InModule(core.Callee(cc)) }}) {
 					if lk, isLk := x.(*ssa.Lookup); isLk && core.LoadOfField(lk.X, pkgProj, "Config", "Requirements") {
 						elemLookup = lk
 					}
@@ -469,26 +469,30 @@ func runC11(p *core.Prog, r *core.Result) {
 			construct := fmt.Sprintf("%s#no-earlier-version-sentinel", fname(fn))
 			// constants reaching the Version field of the returned struct
 			consts := map[string]bool{}
-			var verV ssa.Value
+			// every value stored into the Version field of the returned struct (a literal built at the return, or a
+			// local initialised with the sentinel and updated in the loop)
+			var verVs []ssa.Value
 			if ld, ok := vals[0].(*ssa.UnOp); ok {
 				core.Instrs(fn, func(in ssa.Instruction) {
 					if st, ok := in.(*ssa.Store); ok {
 						if fa, ok := st.Addr.(*ssa.FieldAddr); ok && fa.X == ld.X {
 							if _, f := core.FieldOf(fa); f == "Version" {
-								verV = st.Val
+								verVs = append(verVs, st.Val)
 							}
 						}
 					}
 				})
 			}
-			if verV == nil {
+			if len(verVs) == 0 {
 				r.Unk("R11.1", construct, p.InstrPos(ret), "cannot find the Version of the returned module.Version")
 				continue
 			}
-			for v := range core.BackwardSlice(verV, core.SliceOpts{}) {
-				if s, ok := core.ConstString(v); ok {
-					if _, isConst := v.(*ssa.Const); isConst {
-						consts[s] = true
+			for _, verV := range verVs {
+				for v := range core.BackwardSlice(verV, core.SliceOpts{}) {
+					if s, ok := core.ConstString(v); ok {
+						if _, isConst := v.(*ssa.Const); isConst {
+							consts[s] = true
+						}
 					}
 				}
 			}
